@@ -13,11 +13,12 @@ _REAL = {}
 def _sampler_env():
     return {'sampler': {'NautilusBound': stubs.StubNautilusBound,
                         'h5py': stubs.h5py_proxy, 'Path': stubs.path_proxy,
-                        'os': stubs.os_proxy}}
+                        'os': stubs.os_proxy},
+            'prior': {'uniform': stubs.uniform_stub}}
 
 
 def _default_env():
-    return {}
+    return {'prior': {'uniform': stubs.uniform_stub}}
 
 
 def _bounds_env():
